@@ -256,7 +256,37 @@ def rule_index_keys(ck):
     ck.ob("mpt.index_fresh_key", "get/every-matching-tail", not bad and len(ends) == 1, f"truncating adaptors: {bad}; ends_with sites: {len(ends)}", g.loc())
 
 
+def rule_template_verbatim(ck):
+    """the index is built from demangled names as they are; whatever is done to the user's template must be done to the
+    index too — so nothing is done to it"""
+    prog = ck.prog
+    ck.rule("mpt.template_verbatim", "DebugInformation::search_functions hands the user's template to the per-unit index lookups as it was given (no trimming, case folding, whitespace or character filtering between the argument and PathSearchIndex::get / the closure that calls it): components of trait-impl paths legitimately contain spaces (`<T as Trait>::f`), and the index keys are not normalised")
+    f = ck.anchor("debugger::debugee::dwarf::DebugInformation::search_functions")
+    fs = prog.with_closures(f.path)
+    transforms = sorted({c.name.rsplit("::", 1)[-1] for x in fs for c in x.calls() if re.search(r"str>::(split_whitespace|trim\w*|replace\w*|to_lowercase|to_uppercase|to_ascii_\w+|chars|char_indices|bytes|strip_\w+|split\w*|rsplit\w*|matches)$|str::<impl str>::(split_whitespace|trim\w*|replace\w*|to_lowercase|to_uppercase|to_ascii_\w+|chars|char_indices|bytes|strip_\w+|split\w*|rsplit\w*|matches)$|String::(retain|remove|replace_range)$", c.name)})
+    calls = [(x, c) for x in fs for c in x.calls() if c.name.endswith("unit::BsUnit::search_functions")]
+    ok = bool(calls) and not transforms
+    d = f"string transformations in search_functions: {transforms}"
+    for x, c in calls:
+        a = expr_str(expr_of(x, c.args[1], depth=10), 8)
+        ups = x.raw.get("upvars", [])
+        m = re.search(r"arg1\*?\.(\d+)", a)
+        nm = ups[int(m.group(1))].lstrip("*") if m and int(m.group(1)) < len(ups) else a
+        # the captured variable is the function's own parameter: its only definition in the owner is the argument
+        tl = f.local_by_name("template")
+        ok = ok and nm == "template" and tl == [2]
+        d += f"; unit lookup called with `{nm}` (locals named template: {tl})"
+    g = ck.anchor("debugger::debugee::dwarf::unit::BsUnit::search_functions")
+    gs = prog.with_closures(g.path)
+    gtr = sorted({c.name.rsplit("::", 1)[-1] for x in gs for c in x.calls() if re.search(r"str>::\w+$|str::<impl str>::\w+$|String::\w+$", c.name)})
+    gets = [c for c in g.calls() if c.name.startswith("debugger::debugee::dwarf::utils::PathSearchIndex") and c.name.endswith("::get")]
+    ok = ok and len(gets) == 1 and not gtr and expr_str(expr_of(g, gets[0].args[1], depth=6), 5) in ("&arg2*", "arg2")
+    d += f"; BsUnit::search_functions: string operations {gtr}, index queried with {expr_str(expr_of(g, gets[0].args[1], depth=6), 5) if gets else None}"
+    ck.ob("mpt.template_verbatim", "search_functions/template-reaches-the-index-unchanged", ok, d, f.loc(), what="the function template is rewritten before it is matched against index keys that were not rewritten: valid suffixes that reach a rewritten component select nothing")
+
+
 def run(ck):
+    rule_template_verbatim(ck)
     rule_index_keys(ck)
     rule_all_objects(ck)
     rule_symbols(ck)
